@@ -129,6 +129,13 @@ theorem hbar_select {K : Type} [Field K] (s t : K) (hs : s ≠ 0) (ht : t ≠ 0)
   unfold homodyneReturned homodyneSelectToCircuit
   constructor <;> field_simp
 
+/-- **select_zero_postselects.**  Every supplied post-selection value — zero included — takes the post-selection branch -/
+theorem select_zero_postselects {α : Type} (v : α) : postSelects (some v) = true ∧ postSelects (none : Option α) = false :=
+  ⟨rfl, rfl⟩
+
+/-- testing the value for truth instead (seeded C06-c2) sends `select = 0` to the sampling branch -/
+theorem select_truthiness_counterexample : postSelectsTruthy (some (0 : Int)) ≠ postSelects (some (0 : Int)) := by decide
+
 /-! ### photon counting on the Fock back end -/
 
 /-- **fock_outcome_order.**  For every list `measure` of distinct modes of an `n`-mode register, in any order,
@@ -193,6 +200,24 @@ theorem fock_probs_normalised {K : Type} [Field K] (D n : Nat) (measure : List N
   simp only [← List.sum_eq_foldl]
   rw [sum_map_div, div_self h]
 
+/-! ### Fock homodyne: grid and Hermite table -/
+
+/-- **homodyne_grid.**  `linspace(-q, q, nb)`: first point `-q`, last point `q`, constant spacing `2q/(nb-1)` (the
+normalisation `Δq = q[1] - q[0]` of the pdf relies on it), symmetric about 0 -/
+theorem homodyne_grid {K : Type} [Field K] (q : K) (nb : Nat) (hnb : 1 ≤ nb) (h : (nb : K) - 1 ≠ 0) :
+    linspacePt q nb 0 = -q ∧ linspacePt q nb (nb - 1) = q ∧
+    (∀ k, linspacePt q nb (k + 1) - linspacePt q nb k = (q + q) / ((nb : K) - 1)) ∧
+    (∀ k, k ≤ nb - 1 → linspacePt q nb (nb - 1 - k) = -linspacePt q nb k) :=
+  ⟨linspace_first q nb, linspace_last q nb hnb h, linspace_step q nb, fun k hk => linspace_symm q nb k hk hnb h⟩
+
+/-- **hermite_table.**  The table obeys the three-term recurrence of the physicists' Hermite polynomials for every
+order, with `H₀ = 1`, `H₁ = 2x`, and has the parity `Hₙ(-x) = (-1)ⁿ Hₙ(x)` (mirror points of the grid) -/
+theorem hermite_table {K : Type} [Field K] (x : K) (n : Nat) :
+    hermiteAt x 0 = 1 ∧ hermiteAt x 1 = (1 + 1) * x ∧
+    hermiteAt x (n + 2) = (1 + 1) * x * hermiteAt x (n + 1) - (1 + 1) * ((n : K) + 1) * hermiteAt x n ∧
+    hermiteAt (-x) n = (-1) ^ n * hermiteAt x n :=
+  ⟨rfl, rfl, rfl, hermiteAt_neg x n⟩
+
 /-! ### Gaussian back end: arguments of the photon-counting / threshold samplers -/
 
 /-- **gauss_discrete_args.**  `GaussianBackend.measure_fock` / `measure_threshold` hand to the thewalrus samplers exactly
@@ -236,6 +261,12 @@ theorem rejection_accepted_density {K : Type} [Field K] [LinearOrder K] [IsStric
     (peaks : List (Peak K)) (Z : K) (hub : probUpbnd peaks ≠ 0) :
     ((peaks.filter fun p => isUb p.w).map fun p => absK p.w / Z * (p.pref * p.e)).sum
         * (probDistVal peaks / probUpbnd peaks) = probDistVal peaks / Z := accepted_density peaks Z hub
+
+/-- **rejection_complex_mean_exponent.**  For a peak with complex mean `μ_R + iμ_I` the real part of its exponent
+`(x−μ)ᵀW(x−μ)` is `(x−μ_R)ᵀW(x−μ_R) − μ_IᵀWμ_I`, for every size and every `W`: the modulus of the peak is the real-mean
+Gaussian times `exp(½ μ_IᵀWμ_I)` — exactly the `imag_prefactor` / `ub_exp_arg` replacement the sampler makes -/
+theorem rejection_complex_mean_exponent {K : Type} [CommRing K] (W : Mat K) (d m : Vec K) (k : Nat) :
+    (quadFormCx W d m k).re = quadForm W d k - quadForm W m k := quadFormCx_re W d m k
 
 /-- without domination the statement fails: every `u ∈ [0,1)` is accepted although `p/ub > 1` -/
 theorem rejection_not_dominated_counterexample {K : Type} [Field K] [LinearOrder K] [IsStrictOrderedRing K]
@@ -355,6 +386,8 @@ example : (∀ v ∈ ([2, 0, 3] : List Nat), v < 4) ∧ flatIndex 4 [2, 0, 3] = 
 not constant and sums to the trace -/
 example : fockDist 2 3 [2, 0] (fun idx => if idx 0 = idx 1 ∧ idx 2 = idx 3 ∧ idx 4 = idx 5 then (idx 0 + 2 * idx 2 + 4 * idx 4 + 1 : Int) else 0)
     = [4, 12, 6, 14] ∧ (5 : Nat) < 2 ^ 3 := by decide
+example : (1 : Nat) ≤ 5 ∧ ((5 : Nat) : Rat) - 1 ≠ 0 ∧ hermiteAt (3 / 2 : Rat) 3 = 9 ∧ linspacePt (2 : Rat) 5 1 = -1 := by
+  refine ⟨by decide, by norm_num, by norm_num [hermiteAt], by norm_num [linspacePt]⟩
 /-- array of 4 rows (mode 1 deleted, its row kept), modes (3, 0) measured in descending order -/
 example : (∀ m ∈ ([3, 0] : List Nat), m < 4) ∧ discreteIdxs 4 [3, 0] = [3, 0, 7, 4] := by decide
 /-- a mixture with a negative-weight peak: envelope 5/8 ≥ target 1/2, accepted at u = 1/2, rejected at u = 9/10 -/
